@@ -40,15 +40,32 @@ var c20Sets = []c20Set{
 var c20Keys = []string{"web", "db", "Web", "WEB", "we", "webx", "web2", " web", "web ", "", "web\x00", "web\x00db", "forward:web", "db/../web", "../web", "web/", "*", "w?b", strings.Repeat("k", 200)}
 
 type c20Replay struct {
-	Set string `json:"set"`
-	Key string `json:"key"`
+	Set    string `json:"set"`
+	Key    string `json:"key"`
+	Learnt string `json:"learnt,omitempty"`
 }
 
-func c20Run(r *vmc.Result, set c20Set, key string) {
+// c20Learnt: what the REST of the mesh advertises. The agent under test learns these forward routes
+// (key + the advertiser's target) through real flooding from a neighbour; none of them is configured
+// on the agent under test, so none of them may ever be dialed by it.
+var c20Learnt = []c20Set{
+	{"", nil},
+	{"other-keys", []config.ForwardEndpoint{{Key: "db", Target: "10.7.9.2:9002"}, {Key: "zz", Target: "10.7.9.3:9003"}, {Key: "we", Target: "10.7.9.4:9004"}}},
+	{"same-keys-other-targets", []config.ForwardEndpoint{{Key: "web", Target: "10.7.9.1:9001"}, {Key: "Web", Target: "10.7.9.5:9005"}, {Key: "webx", Target: "10.7.9.6:9006"}, {Key: "WEB", Target: "10.7.9.7:9007"}}},
+}
+
+func c20Run(r *vmc.Result, set c20Set, key string, learnt c20Set) {
 	vnet.Reset()
-	nt, err := nsNew(2, func(i int, cfg *config.Config) {
+	n := 2
+	if learnt.Name != "" {
+		n = 3
+	}
+	nt, err := nsNew(n, func(i int, cfg *config.Config) {
 		if i == 1 {
 			cfg.Forward.Endpoints = set.Eps
+		}
+		if i == 2 {
+			cfg.Forward.Endpoints = learnt.Eps
 		}
 	})
 	if err != nil {
@@ -59,6 +76,17 @@ func c20Run(r *vmc.Result, set c20Set, key string) {
 	nt.connect(0, 1)
 	ep := nt.endpoint(0)
 	nt.settle(ep)
+	if n == 3 {
+		nt.connect(1, 2)
+		nt.agents[2].flooder.AnnounceLocalRoutes()
+		nt.settle(ep)
+		// non-vacuity: the agent under test really holds the advertised routes
+		if got := len(nt.agents[1].routeMgr.ForwardTable().GetAllRoutes()); got < len(learnt.Eps) {
+			r.HarnessError("C20: the agent under test learnt %d forward routes, the neighbour advertises %d", got, len(learnt.Eps))
+			return
+		}
+		r.Add("cases_with_learnt_routes", 1)
+	}
 	vnet.Default = func(network, addr string) (net.Conn, error) {
 		h, p, _ := net.SplitHostPort(addr)
 		var port int
@@ -86,11 +114,14 @@ func c20Run(r *vmc.Result, set c20Set, key string) {
 	for _, d := range vnet.Dials() {
 		dialed = append(dialed, d.Addr)
 	}
-	rep := c20Replay{set.Name, key}
+	rep := c20Replay{set.Name, key, learnt.Name}
 	r.Add("evaluations", 1)
-	r.Outcome(fmt.Sprintf("%s|%q|%v|acked=%v|err=%d", set.Name, key, dialed, t.Acked, t.ErrCode))
+	r.Outcome(fmt.Sprintf("%s|%s|%q|%v|acked=%v|err=%d", set.Name, learnt.Name, key, dialed, t.Acked, t.ErrCode))
 	if want != "" {
-		r.Nontrivial(set.Name + "|" + key)
+		r.Nontrivial(set.Name + "|" + learnt.Name + "|" + key)
+	}
+	if learnt.Name != "" {
+		set.Name += " (mesh advertises " + learnt.Name + ")"
 	}
 	switch {
 	case want == "" && len(dialed) > 0:
@@ -108,13 +139,15 @@ func c20Run(r *vmc.Result, set c20Set, key string) {
 
 func TestVerif_C20(t *testing.T) {
 	r := vmc.New("C20", "exploration")
-	r.Rule = "grid endpoint sets x requested keys, each delivered as a real STREAM_OPEN forward:<key> through processFrame of a real agent built from configuration; non-trivial = requests whose key is configured (must dial exactly its target); outcomes = distinct (set, key, dials, answer)"
+	r.Rule = "grid endpoint sets x forward routes learnt from the rest of the mesh (none / other keys / same keys with other targets, advertised by a real neighbour) x requested keys, each delivered as a real STREAM_OPEN forward:<key> through processFrame of a real agent built from configuration; non-trivial = requests whose key is configured (must dial exactly its target); outcomes = distinct (set, key, dials, answer)"
 	r.Assume("outbound TCP goes through the vnet dial seam substituted for net.Dialer in forward/handler.go")
 	var rp c20Replay
 	if r.ReplayInto(&rp) {
 		for _, s := range c20Sets {
-			if s.Name == rp.Set {
-				c20Run(r, s, rp.Key)
+			for _, l := range c20Learnt {
+				if s.Name == rp.Set && l.Name == rp.Learnt {
+					c20Run(r, s, rp.Key, l)
+				}
 			}
 		}
 		if err := r.Finish(); err != nil {
@@ -122,9 +155,11 @@ func TestVerif_C20(t *testing.T) {
 		}
 		return
 	}
-	for _, s := range c20Sets {
-		for _, k := range c20Keys {
-			c20Run(r, s, k)
+	for _, l := range c20Learnt {
+		for _, s := range c20Sets {
+			for _, k := range c20Keys {
+				c20Run(r, s, k, l)
+			}
 		}
 	}
 	r.Sample(map[string]any{"set": "web+db", "key": "web\x00db"})
